@@ -188,11 +188,11 @@ func runC13Live(t *testing.T, x c13Live, verbose bool) (c vfCase) {
 		return true
 	}
 	out := vfRunE1(t, &sc, vfE1Opts{verbose: verbose, done: vfAllDelivered, bound: func(*vfSim) time.Duration {
-			if len(x.F) > 0 {
-				return vfDrainBound(&sc)
-			}
-			return 3 * time.Second
-		},
+		if len(x.F) > 0 {
+			return vfDrainBound(&sc)
+		}
+		return 3 * time.Second
+	},
 		eval: func(s *vfSim, out *vfE1Out) {
 			if !emission(s) {
 				return
